@@ -297,6 +297,16 @@ def run_verify(spec, rec, lib):
             rec.sample({"pair": label, "library_verdict": why, "entry_points": [e[0] for e in eps]})
 
 
+ALT_KEYS = {
+    "good_key_leading_zero_digit": gkeys.Key(bytes([0x0B]) + bytes(range(1, 32))),
+    "good_key_leading_zero_bytes": gkeys.Key(bytes([0, 0, 0, 1]) + bytes(range(4, 32))),
+    "good_key_all_zero": gkeys.Key(bytes(32)),
+    "good_key_0x_like_start": gkeys.Key(bytes([0x00, 0x0E]) + bytes(range(2, 32))),
+    "good_key_all_f": gkeys.Key(b"\xff" * 32),
+    "good_key_trailing_zeros": gkeys.Key(bytes(range(1, 29)) + bytes(4)),
+}
+
+
 def run_sign_artifacts(spec, rec, lib):
     rng = random.Random(spec["seed"])
     d = spec["scratch"]
@@ -307,6 +317,13 @@ def run_sign_artifacts(spec, rec, lib):
         ("good_only_conda_section", key.seed.hex(), True), ("good_only_packages_section", key.seed.hex(), True),
         ("good_both_sections_empty", key.seed.hex(), True), ("good_one_artifact", key.seed.hex(), True),
         ("good_resign_after_hotfix", key.seed.hex(), True), ("good_planted_own_key_entries", key.seed.hex(), True),
+        # key VALUES: the hex text of a valid key may begin with zeros, be all zeros, look like a prefix ...
+        ("good_key_leading_zero_digit", ALT_KEYS["good_key_leading_zero_digit"].seed.hex(), True),
+        ("good_key_leading_zero_bytes", ALT_KEYS["good_key_leading_zero_bytes"].seed.hex(), True),
+        ("good_key_all_zero", ALT_KEYS["good_key_all_zero"].seed.hex(), True),
+        ("good_key_0x_like_start", ALT_KEYS["good_key_0x_like_start"].seed.hex(), True),
+        ("good_key_all_f", ALT_KEYS["good_key_all_f"].seed.hex(), True),
+        ("good_key_trailing_zeros", ALT_KEYS["good_key_trailing_zeros"].seed.hex(), True),
         ("key_not_hex", "zz" * 32, False), ("key_short", key.seed.hex()[:-2], False), ("key_empty", "", False),
         ("key_long", key.seed.hex() + "00", False), ("key_missing", None, False),
         ("repodata_not_json", key.seed.hex(), False), ("repodata_no_packages", key.seed.hex(), False),
@@ -366,7 +383,7 @@ def run_sign_artifacts(spec, rec, lib):
                     rec.inconclusive_because("CLI process timed out")
                     continue
                 if should_sign:
-                    exp = canonjson.canon(c11.expected_doc(json.loads(orig), key))
+                    exp = canonjson.canon(c11.expected_doc(json.loads(orig), ALT_KEYS.get(scen, key)))
                     if rc != 0:
                         rec.violation("exit-status/%s/sign-artifacts-nonzero-on-success-scenario" % name,
                                       "valid key and repodata but exit %d: %s" % (rc, se[-200:]), case)
